@@ -53,6 +53,8 @@ func init() {
 			{ID: "C03-R21", Title: "integers are divided only by tested or constant divisors on the unprotected surface", Floor: 1, Run: integerDivisionGuarded},
 			{ID: "C03-R22", Title: "the visit record is threaded through the recursion", Floor: 3, Run: visitIsThreadedThroughRecursion},
 			{ID: "C03-R23", Title: "error results are not typed nils", Floor: 1, Run: errorResultsAreNotTypedNils},
+			{ID: "C03-R24", Title: "the lexer does not recurse", Floor: 1, Run: lexerDoesNotRecurse},
+			{ID: "C03-R25", Title: "assertions on the unprotected surface are checked", Floor: 0, Run: assertionsOnTheUnprotectedSurfaceAreChecked},
 		},
 	})
 }
